@@ -140,7 +140,7 @@ def build_model_driver():
 # ------------------------------------------------------------------------
 # running suites
 
-def run_suite(ctx, name, gen_args, timeout=1200):
+def run_suite(ctx, name, gen_args, timeout=1200, driver=None):
     """Run a driver command producing a case file, then the model on it.
     Returns list of rows: dict(suite,input,impl,oracle,model,spec,extra...)."""
     prep = ctx.prep
@@ -150,7 +150,7 @@ def run_suite(ctx, name, gen_args, timeout=1200):
     with open(cf, "w") as f:
         import subprocess
         env = dict(os.environ, VERIF_REPO=C.REPO)
-        p = subprocess.run([prep["driver"]] + [str(a) for a in gen_args], stdout=f, stderr=subprocess.PIPE,
+        p = subprocess.run([driver or prep["driver"]] + [str(a) for a in gen_args], stdout=f, stderr=subprocess.PIPE,
                            text=True, timeout=timeout, env=env)
     if p.returncode != 0:
         raise RuntimeError("driver %s failed: %s" % (gen_args, p.stderr[-2000:]))
